@@ -12,7 +12,8 @@ DETS = ("HDDDM", "CDBD", "KdqTreeBatch", "NNDVI")
 ANCHOR_FILES = ["menelaus/data_drift/histogram_density_method.py", "menelaus/data_drift/kdq_tree.py", "menelaus/data_drift/nndvi.py",
                 "menelaus/partitioners/NNSpacePartitioner.py", "menelaus/partitioners/KDQTreePartitioner.py"]
 RULE = (
-    "one case per (detector, parameters, batch sequence with equal and unequal batch sizes, duplicates): the original run is compared with "
+    "one case per (detector, parameters, batch sequence with equal and unequal batch sizes, duplicates; as arrays or as frames with unique, repeated or string row labels; "
+    "a quarter of the histories ordered by one feature): the original run is compared with "
     "runs in which every batch and the reference are independently permuted (reversal, rotation, random shuffle) under the same per-call "
     "numpy seed.  HDDDM / CDBD (detect_batch 2 or 3): the recorded distances must be equal - for detect_batch 3 together with the complete "
     "decision trace, for detect_batch 2 up to and including the first batch at which the decision traces part (the bootstrap threshold "
@@ -99,9 +100,27 @@ def run_case(case, ctx):
         batches = [b[:m] for b in batches]
     key = case.get("seed_key", case["id"])
     as_frames = bool(rng.random() < 0.3)
+    if rng.random() < 0.25:
+        # records that arrive ordered by one of their features (a counter, a timestamp, a sorted export): the original history is
+        # the ordered one, the permuted histories are not
+        j_ = int(rng.integers(0, batches[0].shape[1]))
+        batches = [b[np.argsort(b[:, j_], kind="stable")] for b in batches]
+        if rng.random() < 0.5:
+            batches = [np.round(b * 4) / 4 for b in batches]  # ties along the ordered feature
+        ctx.count("histories_ordered_by_a_feature")
+    labels = None
     if as_frames:
         ctx.count("histories_as_labelled_frames")
-    orig = run(name, params, batches, key, [np.arange(len(b)) for b in batches] if as_frames else None)
+        r_ = rng.random()
+        if r_ < 0.5:
+            labels = [np.arange(len(b)) for b in batches]
+        elif r_ < 0.8:
+            # stitched from chunks without ignore_index: row labels repeat
+            labels = [np.arange(len(b)) % max(2, len(b) // int(rng.integers(2, 5))) for b in batches]
+            ctx.count("histories_with_repeated_row_labels")
+        else:
+            labels = [np.array(["r%d" % v for v in rng.permutation(len(b))], dtype=object) for b in batches]
+    orig = run(name, params, batches, key, labels)
     drift = any(o["state"] == "drift" for o in orig)
     if name == "NNDVI":
         ctx.count("nndvi_unequal_size_pairs", sum(1 for a, b in zip(batches, batches[1:]) if len(a) != len(b)))
@@ -110,7 +129,7 @@ def run_case(case, ctx):
             orders = [np.arange(len(b))[::-1] if how == "reverse" else (np.roll(np.arange(len(b)), max(1, len(b) // 3)) if how == "rotate" else rng.permutation(len(b)))
                       for b in batches]
             pb = [b[o].copy() for b, o in zip(batches, orders)]
-            perm = run(name, params, pb, key, orders)
+            perm = run(name, params, pb, key, [l[o] for l, o in zip(labels, orders)])
         else:
             pb = [permute(b, how, rng) for b in batches]
             perm = run(name, params, pb, key)
